@@ -376,8 +376,10 @@ impl VM {
                         Ok(ethernet) => Rc::new(Object::Eth(Rc::new(ethernet))),
                         Err(e) => Rc::new(Object::Err(ErrorObj::Packet(e))),
                     };
-                    // Borrow the inner object again and replace its content
-                    pkt.inner.replace(Some(obj.clone()));
+                    // cache the parsed layer (an error object is never cached)
+                    if !obj.is_error() {
+                        pkt.inner.replace(Some(obj.clone()));
+                    }
                     obj
                 }
             }
@@ -462,8 +464,10 @@ impl VM {
                         Ok(vlan) => Rc::new(Object::Vlan(Rc::new(vlan))),
                         Err(e) => Rc::new(Object::Err(ErrorObj::Packet(e))),
                     };
-                    // Borrow the inner object again and replace its content
-                    eth.inner.replace(Some(obj.clone()));
+                    // cache the parsed layer (an error object is never cached)
+                    if !obj.is_error() {
+                        eth.inner.replace(Some(obj.clone()));
+                    }
                     obj
                 }
             }
@@ -482,8 +486,10 @@ impl VM {
                         Ok(ipv4) => Rc::new(Object::Ipv4(Rc::new(ipv4))),
                         Err(e) => Rc::new(Object::Err(ErrorObj::Packet(e))),
                     };
-                    // Borrow the inner object again and replace its content
-                    eth.inner.replace(Some(obj.clone()));
+                    // cache the parsed layer (an error object is never cached)
+                    if !obj.is_error() {
+                        eth.inner.replace(Some(obj.clone()));
+                    }
                     obj
                 }
             }
@@ -502,7 +508,10 @@ impl VM {
                         Ok(ipv6) => Rc::new(Object::Ipv6(Rc::new(ipv6))),
                         Err(e) => Rc::new(Object::Err(ErrorObj::Packet(e))),
                     };
-                    eth.inner.replace(Some(obj.clone()));
+                    // cache the parsed layer (an error object is never cached)
+                    if !obj.is_error() {
+                        eth.inner.replace(Some(obj.clone()));
+                    }
                     obj
                 }
             }
@@ -592,8 +601,10 @@ impl VM {
                         Ok(vlan) => Rc::new(Object::Vlan(Rc::new(vlan))),
                         Err(e) => Rc::new(Object::Err(ErrorObj::Packet(e))),
                     };
-                    // Borrow the inner object again and replace its content
-                    vlan.inner.replace(Some(obj.clone()));
+                    // cache the parsed layer (an error object is never cached)
+                    if !obj.is_error() {
+                        vlan.inner.replace(Some(obj.clone()));
+                    }
                     obj
                 }
             }
@@ -612,8 +623,10 @@ impl VM {
                         Ok(ipv4) => Rc::new(Object::Ipv4(Rc::new(ipv4))),
                         Err(e) => Rc::new(Object::Err(ErrorObj::Packet(e))),
                     };
-                    // Borrow the inner object again and replace its content
-                    vlan.inner.replace(Some(obj.clone()));
+                    // cache the parsed layer (an error object is never cached)
+                    if !obj.is_error() {
+                        vlan.inner.replace(Some(obj.clone()));
+                    }
                     obj
                 }
             }
@@ -785,8 +798,10 @@ impl VM {
                         Ok(udp) => Rc::new(Object::Udp(Rc::new(udp))),
                         Err(e) => Rc::new(Object::Err(ErrorObj::Packet(e))),
                     };
-                    // Borrow the inner object again and replace its content
-                    ipv4.inner.replace(Some(obj.clone()));
+                    // cache the parsed layer (an error object is never cached)
+                    if !obj.is_error() {
+                        ipv4.inner.replace(Some(obj.clone()));
+                    }
                     obj
                 }
             }
@@ -803,8 +818,10 @@ impl VM {
                         Ok(tcp) => Rc::new(Object::Tcp(Rc::new(tcp))),
                         Err(e) => Rc::new(Object::Err(ErrorObj::Packet(e))),
                     };
-                    // Borrow the inner object again and replace its content
-                    ipv4.inner.replace(Some(obj.clone()));
+                    // cache the parsed layer (an error object is never cached)
+                    if !obj.is_error() {
+                        ipv4.inner.replace(Some(obj.clone()));
+                    }
                     obj
                 }
             }
@@ -823,7 +840,10 @@ impl VM {
                         Ok(ipv6) => Rc::new(Object::Ipv6(Rc::new(ipv6))),
                         Err(e) => Rc::new(Object::Err(ErrorObj::Packet(e))),
                     };
-                    ipv4.inner.replace(Some(obj.clone()));
+                    // cache the parsed layer (an error object is never cached)
+                    if !obj.is_error() {
+                        ipv4.inner.replace(Some(obj.clone()));
+                    }
                     obj
                 }
             }
@@ -946,8 +966,10 @@ impl VM {
                         Ok(udp) => Rc::new(Object::Udp(Rc::new(udp))),
                         Err(e) => Rc::new(Object::Err(ErrorObj::Packet(e))),
                     };
-                    // Borrow the inner object again and replace its content
-                    ipv6.inner.replace(Some(obj.clone()));
+                    // cache the parsed layer (an error object is never cached)
+                    if !obj.is_error() {
+                        ipv6.inner.replace(Some(obj.clone()));
+                    }
                     obj
                 }
             }
@@ -964,8 +986,10 @@ impl VM {
                         Ok(tcp) => Rc::new(Object::Tcp(Rc::new(tcp))),
                         Err(e) => Rc::new(Object::Err(ErrorObj::Packet(e))),
                     };
-                    // Borrow the inner object again and replace its content
-                    ipv6.inner.replace(Some(obj.clone()));
+                    // cache the parsed layer (an error object is never cached)
+                    if !obj.is_error() {
+                        ipv6.inner.replace(Some(obj.clone()));
+                    }
                     obj
                 }
             }
